@@ -48,6 +48,10 @@ def rm(p):
     shutil.rmtree(p, ignore_errors=True)
 
 
+LINKS = {}   # {relpath: link target}: files of the tree that materialise() creates as symbolic links to another file of the tree
+             # (the tree model carries the target's bytes under the link's path: a link to a file is hashed through the link)
+
+
 def materialise(root, tree, mtimes=None, clean=True):
     """write tree {relpath: bytes|None} below root (root is (re)created); every entry gets mtime T0
     unless mtimes {relpath: seconds} says otherwise ('' = the root itself)"""
@@ -64,6 +68,9 @@ def materialise(root, tree, mtimes=None, clean=True):
             d = os.path.dirname(fp)
             if not os.path.isdir(d):
                 os.makedirs(d)
+            if p in LINKS:
+                os.symlink(LINKS[p], fp)
+                continue
             with ropen(fp, "wb") as f:
                 f.write(tree[p])
     mt = mtimes or {}
